@@ -8,7 +8,7 @@ use librqbit_utp::verif as v;
 use librqbit_utp::{Error, UtpStreamReadHalf};
 use tokio::io::{AsyncRead, ReadBuf};
 
-use crate::util::{bytes_dot, counting_waker, guarded, pattern};
+use crate::util::{bytes_dot, counting_waker, guarded, pattern, WakerSet};
 
 pub fn sack_hex(s: Option<librqbit_utp::raw::selective_ack::SelectiveAck>) -> String {
     match s {
@@ -41,9 +41,10 @@ pub fn dispatch(t: &[&str]) -> Option<String> {
     );
     let mut rh: Option<UtpStreamReadHalf> = Some(rh);
     let (dc, dw) = counting_waker();
-    let (rc, rw) = counting_waker();
+    let mut rset = WakerSet::new();
     let mut out: Vec<String> = Vec::new();
     for tok in &t[3..] {
+        let rw = rset.fresh();
         let r = guarded(|| {
             let mut dcx = Context::from_waker(&dw);
             let mut rcx = Context::from_waker(&rw);
@@ -134,9 +135,11 @@ pub fn dispatch(t: &[&str]) -> Option<String> {
                 for _ in 0..dc.take() {
                     wakes.push('D');
                 }
-                for _ in 0..rc.take() {
-                    wakes.push('R');
+                // (a zero-length read returns Pending without parking: outside the assumption "reads have a non-empty buffer")
+                if res == "PEND" && *tok != "r0" {
+                    rset.returned_pending();
                 }
+                wakes.push_str(&rset.letters('R', 'r', false));
                 if wakes.is_empty() {
                     wakes.push('-');
                 }
